@@ -2,6 +2,7 @@
 #![allow(dead_code)]
 mod core;
 mod c01;
+mod c02;
 mod c13;
 mod c14;
 mod c15;
@@ -24,6 +25,19 @@ pub fn variant_name() -> String {
 }
 
 fn main() {
+    // glibc serves every allocation above 128 KiB with a fresh mmap (page faults, munmap): the
+    // provers allocate many such buffers per case and 16 workers then spend most of their time in
+    // the kernel. Keep large blocks on the heap instead.
+    unsafe {
+        libc::mallopt(libc::M_MMAP_THRESHOLD, 1 << 30);
+        libc::mallopt(libc::M_TRIM_THRESHOLD, i32::MAX);
+        libc::mallopt(libc::M_TOP_PAD, 1 << 28);
+    }
+    // anyhow captures a backtrace per error under a global lock when RUST_BACKTRACE is set in the
+    // environment: every *rejected* verification would serialise the workers.
+    if std::env::var("VERIF_BACKTRACE").is_err() {
+        std::env::set_var("RUST_LIB_BACKTRACE", "0");
+    }
     let args: Vec<String> = std::env::args().collect();
     if args.len() < 2 {
         eprintln!("usage: mc <ID> [--tier quick|thorough] [--replay <file>]");
@@ -63,6 +77,7 @@ fn main() {
     let ctx = Ctx::new(&id, tier, filter);
     let code = match id.as_str() {
         "C01" => c01::run(&ctx),
+        "C02" => c02::run(&ctx),
         "C13" => c13::run(&ctx),
         "C14" => c14::run(&ctx),
         "C15" => c15::run(&ctx),
